@@ -288,15 +288,24 @@ Proof.
     - intros t0 l _ H. exists l. split; [exact H|lia]. }
   destruct (t =? 0).
   - intros H. injection H as <- _. right. eexists. split; [reflexivity|]. left. split; [cbn [cl_consumer]; apply get_remove_eq|exact Hwhole].
-  - destruct (remove (g_topics grp) t) as [|x r] eqn:Er.
-    + intros H. injection H as <- _. right. eexists. split; [reflexivity|]. left. split; [cbn [cl_consumer]; apply get_remove_eq|exact Hwhole].
+  - assert (Hset : Done (set st c (mkCluster (cl_broker cl) (set (cl_consumer cl) g
+                            (mkCgroup (remove (g_topics grp) t) (g_last grp))))) RNone = Done st' rep ->
+                   st' = st \/
+                   exists cl', st' = set st c cl' /\
+                     ((get (cl_consumer cl') g = None /\
+                       CRel (fun g0 => negb (g0 =? g)) (fun g0 _ => negb (g0 =? g)) ktrue1 cl cl') \/
+                      (get (cl_consumer cl') g <> None /\
+                       CRel ktrue1 (fun g0 t0 => negb ((g0 =? g) && (t0 =? t))) ktrue1 cl cl'))).
+    2:{ destruct (remove (g_topics grp) t) as [|x r] eqn:Er; [|exact Hset].
+        destruct (get (g_topics grp) t); [|exact Hset].
+        intros H. injection H as <- _. right. eexists. split; [reflexivity|]. left. split; [cbn [cl_consumer]; apply get_remove_eq|exact Hwhole]. }
     + intros H. injection H as <- _. right. eexists. split; [reflexivity|]. right.
       split; [cbn [cl_consumer]; rewrite get_set_eq; discriminate|]. constructor.
       * intros g0 _ H. cbn [cl_consumer]. destruct (Z.eq_dec g0 g) as [->|Hn]; [rewrite get_set_eq; discriminate|].
         rewrite get_set_neq by congruence. exact H.
       * intros g0 t0 i pr Hk H. exists pr. split; [|apply part_mono_refl]. rewrite cons_topic_set_group.
         destruct (Z.eqb_spec g0 g) as [->|Hn]; [|exact H]. cbn [andb negb] in Hk. apply negb_true_iff, Z.eqb_neq in Hk.
-        cbn [g_topics]. rewrite <- Er, get_remove_neq by congruence. unfold cons_topic in H. rewrite Hg in H. exact H.
+        cbn [g_topics]. rewrite get_remove_neq by congruence. unfold cons_topic in H. rewrite Hg in H. exact H.
       * intros t0 l _ H. exists l. split; [exact H|lia].
 Qed.
 
